@@ -149,6 +149,14 @@ FAULTS = [
     ("wire zq : 8; zq = «;»", "UnrecognizedToken"),
     ("wire zq : 8; zq = 1; «}»", "UnrecognizedToken"),
     ("wire zq : 8; zq = 1; «/*»never_closed", "UnterminatedComment"),
+    # spans of compound expressions with parentheses at their edges: a binary expression spans the
+    # tokens of its own production (its operands' parentheses included), a parenthesised
+    # expression passes the span of what is inside
+    ("wire zq : 8; wire zr : 4; zq = 1; zr = 2; wire zs : 8; zs = «( zq + 1 ) & ( zq | zq )» & ( «zr» );", "MismatchedExprWidths"),
+    ("wire zq : 4; zq = «( 0b11 .. 0b11 ) + ( 0b1 .. 0b1111 )»;", "MismatchedWireWidths"),
+    ("wire zq : 1; zq = ( «( 0b1 .. 0b1 ) & 0b11» ) && 1;", "NonBooleanWidth"),
+    ("wire zq : 8; zq = 1; wire zs : 1; zs = ( «( zq + 1 ) == ( zq )» ) & ( «( 0b11 )[0..2] + ( 0b11 )» );", "MismatchedExprWidths"),
+    ("wire zq : 8; zq = ( «undefinedname8» ) + ( ( 1 ) );", "UndeclaredWireRead"),
 ]
 TRIVIA = [" ", " ", " ", "  ", "   ", "\t", " /*c*/ ", "/**/ ", " \t "]
 
